@@ -19,8 +19,9 @@ Proof. vm_compute. split; reflexivity. Qed.
 Lemma consts_fake : fake_not_built <> fake_not_merged /\ 0 < fake_iid_base.
 Proof. vm_compute. split; [discriminate|reflexivity]. Qed.
 
-Lemma consts_cutoff : 0 <= obsolete_cutoff.
-Proof. vm_compute. discriminate. Qed.
+(* the window of the property's quantifier: 30 days *)
+Lemma consts_cutoff : obsolete_cutoff = 30 * 86400 /\ 0 <= obsolete_cutoff.
+Proof. vm_compute. split; [reflexivity|discriminate]. Qed.
 
 (* ------------------------------------------------------------------ *)
 (* search predicate = "text occurs in the message"                      *)
